@@ -8,7 +8,7 @@ for p in sorted(glob.glob(os.path.join(V, "evidence", "C*.json"))):
     e = json.load(open(p))
     c = e["coverage"]
     stt = f"{c['states']} / {c['transitions']} / {c.get('traces_validated_against_impl', '')}" if "states" in c else ""
-    wall = e.get("wall_seconds", c.get("wall_seconds", e.get("duration_s", 0))) or 0
+    wall = e.get("wall_s", e.get("wall_seconds", c.get("wall_seconds", e.get("duration_s", 0)))) or 0
     tot += float(wall)
     print(f"| {e['property_id']} | {c.get('cases', '')} | {c.get('evaluations', '')} | {stt} | {round(float(wall))} s | {c.get('bound', '')} |")
 print(f"\ntotal wall {tot / 60:.1f} min; tiers: {sorted({json.load(open(p))['tier'] for p in glob.glob(os.path.join(V, 'evidence', 'C*.json'))})}")
